@@ -310,7 +310,7 @@ def run(tier):
                  'source elements <= what a lazy reference pipeline pulls + a constant look-ahead per adaptor; non-trivial = edges '
                  'whose post-state differs + distinct pipelines')
     dom = GenDomain(tier)
-    depth = 2 if tier == 'quick' else 3
+    depth = 2 if tier == 'quick' else 4
     rep.bounds['depth'] = depth
     explore(rep, dom, max_depth=depth, binary_pool=gen_others, max_states=(20000 if tier == 'quick' else 300000))
     cases = lazy_cases(tier)
